@@ -7,7 +7,9 @@
 (* run) and b the run under scrutiny, both projected by the harness to     *)
 (*   steps : sequence of [x, f, cv]   (user-space point, objective value,  *)
 (*           the solver's violation of every completed evaluation)         *)
-(*   res   : [raised, status, success, x, f, cv, nfev, nit]                *)
+(*   res   : [raised, status, success, x, f, cv, nfev, nit, hf, hc]        *)
+(*           (hf / hc: the returned fun_history / maxcv_history, empty     *)
+(*           when the history is not stored)                               *)
 (* Values are order keys in ONE key space per pair, so key equality is bit *)
 (* equality of the doubles.  exact = FALSE allows the banded comparison    *)
 (* (keys xlo / xhi of the script bracket the other run's coordinates).     *)
@@ -37,6 +39,8 @@ ResSame(p) ==
   /\ p.a.res.success = p.b.res.success /\ p.a.res.nfev = p.b.res.nfev
   /\ (p.exact => (/\ SameSeq(p.a.res.x, p.b.res.x) /\ p.a.res.f = p.b.res.f
                   /\ p.a.res.cv = p.b.res.cv /\ p.a.res.nit = p.b.res.nit))
+  \* C11: a repeated / nested / concurrent call returns the same histories (no entry of another call)
+  /\ ((p.exact /\ p.prop = "C11") => (/\ SameSeq(p.a.res.hf, p.b.res.hf) /\ SameSeq(p.a.res.hc, p.b.res.hc)))
   /\ (~p.exact => Within(p.a.res.xlo, p.b.res.x, p.a.res.xhi))
 
 Sel(c, name) == IF c THEN {} ELSE {name}
